@@ -354,7 +354,8 @@ Qed.
 (* a node update that keeps data, levels and array sizes *)
 Lemma sl_map_node_frame (s : slist D) n f :
   sl_wf s ->
-  (forall nd, sn_data (f nd) = sn_data nd /\ sn_levels (f nd) = sn_levels nd /\
+  (forall nd, sl_node_at s n = Some nd ->
+              sn_data (f nd) = sn_data nd /\ sn_levels (f nd) = sn_levels nd /\
               length (sn_next (f nd)) = length (sn_next nd) /\
               length (sn_prev (f nd)) = length (sn_prev nd)) ->
   sl_wf (sl_map_node s n f) /\ sl_same s (sl_map_node s n f).
@@ -362,14 +363,15 @@ Proof.
   intros [W WH] Hf. split; [split|repeat split].
   - intros m nd. rewrite sl_node_at_map. destruct (Nat.eqb_spec m n) as [->|_].
     + destruct (sl_node_at s n) as [nd0|] eqn:E; [|discriminate]. intros [= <-].
-      apply W in E. destruct (Hf nd0) as (_ & F2 & F3 & F4). unfold sl_node_wf in *.
+      destruct (Hf nd0 eq_refl) as (_ & F2 & F3 & F4).
+      apply W in E. unfold sl_node_wf in *.
       cbn [sl_levels sl_map_node]. lia.
     + apply W.
   - exact WH.
   - intros m. unfold sl_DATA. rewrite sl_node_at_map. destruct (Nat.eqb_spec m n) as [->|_]; auto.
-    destruct (sl_node_at s n); auto. simpl. f_equal. apply Hf.
+    destruct (sl_node_at s n) eqn:E; auto. simpl. f_equal. apply Hf; auto.
   - intros m. unfold sl_LEV. rewrite sl_node_at_map. destruct (Nat.eqb_spec m n) as [->|_]; auto.
-    destruct (sl_node_at s n); auto. simpl. apply Hf.
+    destruct (sl_node_at s n) eqn:E; auto. simpl. apply Hf; auto.
   - unfold sl_map_node. cbn [sl_heap]. destruct (sl_node_at s n); auto. apply sl_upd_length.
 Qed.
 
@@ -419,7 +421,7 @@ Proof.
   eexists. split; [reflexivity|].
   match goal with |- sl_wf (sl_map_node s n ?f) /\ _ => pose proof (sl_map_node_frame s n f W) as F end.
   destruct F as [F1 F2].
-  { intros nd0. cbn. rewrite sl_upd_length. auto. }
+  { intros nd0 _. cbn. rewrite sl_upd_length. auto. }
   split; auto. split; auto. repeat split; auto.
   - intros m k. unfold sl_NX. rewrite sl_node_at_map.
     destruct (Nat.eqb_spec m n) as [->|_]; cbn [andb]; auto. rewrite E. cbn.
@@ -445,7 +447,7 @@ Proof.
   eexists. split; [reflexivity|].
   match goal with |- sl_wf (sl_map_node s n ?f) /\ _ => pose proof (sl_map_node_frame s n f W) as F end.
   destruct F as [F1 F2].
-  { intros nd0. cbn. rewrite sl_upd_length. auto. }
+  { intros nd0 _. cbn. rewrite sl_upd_length. auto. }
   split; auto. split; auto. repeat split; auto.
   - intros m k. unfold sl_NX. rewrite sl_node_at_map.
     destruct (Nat.eqb_spec m n) as [->|_]; auto. rewrite E. reflexivity.
@@ -866,5 +868,264 @@ Proof.
 Qed.
 
 End PUSH.
+
+
+Lemma sl_nodup_insert {A} (l1 l2 : list A) x : NoDup (l1 ++ l2) -> ~ In x (l1 ++ l2) -> NoDup (l1 ++ x :: l2).
+Proof.
+  induction l1 as [|a l1 IH]; simpl; intros ND NI.
+  - constructor; auto.
+  - apply NoDup_cons_iff in ND. destruct ND as [Ha ND]. constructor.
+    + intros Hin. apply in_app_or in Hin. destruct Hin as [Hin|[->|Hin]].
+      * apply Ha, in_or_app; auto.
+      * apply NI; auto.
+      * apply Ha, in_or_app; auto.
+    + apply IH; auto.
+Qed.
+
+Lemma sl_node_push_ok s x d Pl Sl :
+  sl_rep s (Pl ++ Sl) -> ~ In x (Pl ++ Sl) -> 0 < sl_LEV s x -> sl_DATA s x = Some d ->
+  (forall y, In y Pl -> sl_gt s d y) -> (forall y, In y Sl -> sl_le s d y) ->
+  length (Pl ++ Sl) <= sl_cnt s ->
+  exists s', sl_node_push cmp s x = Ok s' /\ sl_rep s' (Pl ++ x :: Sl) /\ sl_same s s'.
+Proof.
+  intros (W & ND & LV & LK & TL) NI LVx DX GT LE CNT.
+  unfold sl_node_push, sl_load.
+  pose proof (sl_wf_LEV s x W) as Hxl.
+  unfold sl_DATA in DX. unfold sl_LEV in LVx, Hxl.
+  destruct (sl_node_at s x) as [nd|] eqn:EX; [|discriminate]. cbn [bind].
+  simpl in DX. injection DX as DX.
+  assert (ELX : sl_LEV s x = sn_levels nd) by (unfold sl_LEV; rewrite EX; auto).
+  rewrite DX.
+  assert (ST : sl_push_stage s x Pl Sl s (sl_levels s) None).
+  { split; [exact W|]. split; [apply sl_same_refl|]. split; [|split; [|split]].
+    - intros k H1 H2. lia.
+    - intros k Hk. apply LK; auto.
+    - destruct (Nat.eqb_spec (sl_levels s) 0); [lia|]. exact TL.
+    - rewrite sl_chain_high; auto. intros y Hy. apply sl_wf_LEV; auto. }
+  destruct (sl_push_levels_ok s x d Pl Sl (S (sl_cnt s)) ND NI LV) with (i := sl_levels s) (s := s) (left := @None nat)
+    as (s' & E & left' & ST'); auto; try lia.
+  rewrite ELX in E.
+  exists s'. split; [exact E|].
+  destruct ST' as (W' & SM' & Hhi & _ & TL' & _).
+  pose proof SM' as (_ & SML & SMl & _).
+  split; [|exact SM'].
+  split; [exact W'|]. split; [apply sl_nodup_insert; auto|]. split; [|split].
+  - intros n Hn. rewrite SML. apply in_app_or in Hn. destruct Hn as [Hn|[<-|Hn]].
+    + apply LV, in_or_app; auto.
+    + rewrite ELX; auto.
+    + apply LV, in_or_app; auto.
+  - intros k Hk. rewrite (sl_chain_ext (sl_LEV s)) by exact SML. apply Hhi; lia.
+  - exact TL'.
+Qed.
+
+
+(* ------------------------------------------------------------------------------------ *)
+(* ares_slist_node_pop *)
+
+Lemma sl_lvl_ok_ext_in s s' k c :
+  (forall y, In y c -> sl_NX s' y k = sl_NX s y k) -> (forall y, In y c -> sl_PV s' y k = sl_PV s y k) ->
+  sl_HD s' k = sl_HD s k -> sl_lvl_ok s k c -> sl_lvl_ok s' k c.
+Proof.
+  intros H1 H2 H3 [A B]. split.
+  - rewrite H3. eapply sl_seg_ext; [|exact A]. intros; apply H1; auto.
+  - eapply sl_bwd_ext; [|exact B]. intros; apply H2; auto.
+Qed.
+
+Section POP.
+Variables (s0 : slist D) (x : nat) (L1 L2 : list nat).
+Hypothesis W0 : sl_wf s0.
+Hypothesis ND : NoDup (L1 ++ x :: L2).
+Hypothesis LV : forall y, In y (L1 ++ x :: L2) -> 0 < sl_LEV s0 y.
+
+Let lev := sl_LEV s0.
+
+Definition sl_pop_stage (s : slist D) (i : nat) : Prop :=
+  sl_wf s /\ sl_same s0 s /\
+  (forall k, i <= k -> k < sl_levels s0 -> sl_lvl_ok s k (sl_chain lev k (L1 ++ L2))) /\
+  (forall k, k < i -> sl_lvl_ok s k (sl_chain lev k (L1 ++ x :: L2))) /\
+  sl_tail s = (if i =? 0 then sl_last (L1 ++ L2) else sl_last (L1 ++ x :: L2)).
+
+Lemma sl_pop_level_ok s i :
+  sl_pop_stage s (S i) -> S i <= lev x ->
+  exists s', sl_pop_level s x i = Ok s' /\ sl_pop_stage s' i.
+Proof.
+  intros (W & SM & Hhi & Hlo & Htl) Hi.
+  pose proof SM as (SMD & SML & SMl & _).
+  set (cP := sl_chain lev i L1). set (cS := sl_chain lev i L2).
+  assert (Hxl : lev x <= sl_levels s0) by (apply sl_wf_LEV; auto).
+  assert (EC : sl_chain lev i (L1 ++ x :: L2) = cP ++ x :: cS).
+  { rewrite sl_chain_app, sl_chain_cons. destruct (Nat.ltb_spec i (lev x)); [|lia]. reflexivity. }
+  assert (Hok : sl_lvl_ok s i (cP ++ x :: cS)) by (rewrite <- EC; apply Hlo; lia).
+  destruct Hok as [Hs Hb].
+  assert (NDc : NoDup (cP ++ x :: cS)) by (rewrite <- EC; apply sl_chain_nodup; auto).
+  assert (LVc : forall y, In y (cP ++ x :: cS) -> i < sl_LEV s y).
+  { intros y Hy. rewrite <- EC in Hy. apply sl_chain_in in Hy. rewrite SML. tauto. }
+  assert (Hix : i < sl_LEV s x) by (apply LVc, in_or_app; right; left; auto).
+  assert (NXx : sl_NX s x i = hd_error cS) by (apply (sl_seg_next _ _ _ _ _ Hs)).
+  assert (PVx : sl_PV s x i = sl_last cP) by (apply (sl_bwd_prev _ _ _ _ Hb)).
+  assert (Hil : i < sl_levels s) by lia.
+  unfold sl_pop_level.
+  rewrite sl_get_next_ok by auto. cbn [bind]. rewrite NXx.
+  (* first statement *)
+  match goal with |- context [bind ?mm _] =>
+    assert (S1 : exists s1, mm = Ok s1 /\ sl_wf s1 /\ sl_same s s1 /\
+      (forall m k, sl_NX s1 m k = sl_NX s m k) /\
+      (forall m k, sl_PV s1 m k =
+         match hd_error cS with
+         | Some m' => if (m =? m') && (k =? i) then sl_last cP else sl_PV s m k
+         | None => sl_PV s m k end) /\
+      (forall k, sl_HD s1 k = sl_HD s k) /\
+      sl_tail s1 = (if i =? 0 then match hd_error cS with None => sl_last cP | Some _ => sl_tail s end
+                    else sl_tail s)) end.
+  { destruct (hd_error cS) as [m'|] eqn:EH.
+    - assert (Hm : In m' cS) by (destruct cS; [discriminate|]; injection EH as ->; left; auto).
+      rewrite sl_get_prev_ok by auto. cbn [bind]. rewrite PVx.
+      destruct (sl_set_prev_spec s m' i (sl_last cP) W) as (sd & -> & Wd & Sd & NXd & PVd & HDd & TLd).
+      { apply LVc, in_or_app. right. right. auto. }
+      exists sd. split; [reflexivity|]. split; [exact Wd|]. split; [exact Sd|].
+      split; [exact NXd|]. split; [exact PVd|]. split; [exact HDd|].
+      rewrite TLd. destruct (i =? 0); auto.
+    - destruct (Nat.eqb_spec i 0) as [->|Hne].
+      + rewrite sl_get_prev_ok by auto. cbn [bind]. rewrite PVx.
+        eexists. split; [reflexivity|].
+        destruct (sl_set_tail_spec s (sl_last cP) W) as (A & B & C & E & F & G).
+        split; [exact A|]. split; [exact B|]. split; [exact C|]. split; [exact E|].
+        split; [exact F|]. exact G.
+      + exists s. split; [reflexivity|]. split; [exact W|]. split; [apply sl_same_refl|].
+        split; [reflexivity|]. split; [reflexivity|]. split; reflexivity. }
+  destruct S1 as (s1 & -> & W1 & SM1 & NX1 & PV1 & HD1 & TL1). cbn [bind].
+  assert (Hix1 : i < sl_LEV s1 x) by (destruct SM1 as (_ & -> & _); auto).
+  assert (Hxm : forall m', hd_error cS = Some m' -> x <> m').
+  { intros m' EH ->. apply NoDup_remove_2 in NDc. apply NDc, in_or_app. right.
+    destruct cS; [discriminate|]. injection EH as ->. left; auto. }
+  rewrite sl_get_prev_ok by auto. cbn [bind].
+  assert (PVx1 : sl_PV s1 x i = sl_last cP).
+  { rewrite PV1. destruct (hd_error cS) as [m'|] eqn:EH; auto.
+    specialize (Hxm m' eq_refl). sl_eqb. }
+  rewrite PVx1.
+  (* second statement *)
+  match goal with |- exists s', ?mm = Ok s' /\ _ =>
+    assert (S2 : exists s2, mm = Ok s2 /\ sl_wf s2 /\ sl_same s1 s2 /\
+      (forall m k, sl_NX s2 m k =
+         match sl_last cP with
+         | Some l => if (m =? l) && (k =? i) then hd_error cS else sl_NX s1 m k
+         | None => sl_NX s1 m k end) /\
+      (forall m k, sl_PV s2 m k = sl_PV s1 m k) /\
+      (forall k, sl_HD s2 k = match sl_last cP with
+                              | Some _ => sl_HD s1 k
+                              | None => if k =? i then hd_error cS else sl_HD s1 k end) /\
+      sl_tail s2 = sl_tail s1) end.
+  { destruct (sl_last cP) as [l|] eqn:EL.
+    - assert (Hl : In l cP).
+      { apply sl_last_some in EL. destruct EL as (c' & ->). apply in_or_app; right; left; auto. }
+      rewrite sl_get_next_ok by auto. cbn [bind]. rewrite NX1, NXx.
+      destruct (sl_set_next_spec s1 l i (hd_error cS) W1) as (sc & -> & Wc & Sc & NXc & PVc & HDc & TLc).
+      { destruct SM1 as (_ & -> & _). apply LVc, in_or_app; auto. }
+      exists sc. split; [reflexivity|]. split; [exact Wc|]. split; [exact Sc|].
+      split; [exact NXc|]. split; [exact PVc|]. split; [exact HDc|]. exact TLc.
+    - rewrite sl_get_next_ok by auto. cbn [bind]. rewrite NX1, NXx.
+      destruct (sl_set_head_spec s1 i (hd_error cS) W1) as (sc & -> & Wc & Sc & NXc & PVc & HDc & TLc).
+      { destruct SM1 as (_ & _ & -> & _). auto. }
+      exists sc. split; [reflexivity|]. split; [exact Wc|]. split; [exact Sc|].
+      split; [exact NXc|]. split; [exact PVc|]. split; [exact HDc|]. exact TLc. }
+  destruct S2 as (s2 & -> & W2 & SM2 & NX2 & PV2 & HD2 & TL2).
+  exists s2. split; [reflexivity|].
+  split; [exact W2|]. split; [eapply sl_same_trans; [exact SM|]; eapply sl_same_trans; eauto|].
+  split; [|split].
+  - intros k Hk Hk2. destruct (Nat.eq_dec k i) as [->|Hne].
+    + rewrite sl_chain_app. fold cP cS. unfold sl_lvl_ok.
+      eapply (sl_dll_remove _ _ _ (fun n => sl_NX s2 n i) (fun n => sl_PV s2 n i) (sl_HD s2 i)
+                            cP cS x NDc Hs Hb).
+      * destruct (sl_last cP) as [l|] eqn:EL.
+        -- split.
+           ++ sl_norm. try rewrite EL. sl_eqb.
+           ++ sl_norm. try rewrite EL. reflexivity.
+        -- sl_norm. try rewrite EL. rewrite Nat.eqb_refl. reflexivity.
+      * intros y Hy Hyl. sl_norm. destruct (sl_last cP) as [l|]; sl_eqb.
+      * destruct (hd_error cS) as [m'|] eqn:EH; auto. sl_norm. try rewrite EH.
+        rewrite !Nat.eqb_refl. reflexivity.
+      * intros y Hy Hym. sl_norm. destruct (hd_error cS) as [m'|]; sl_eqb.
+    + apply (sl_lvl_ok_ext s).
+      * intros y. sl_norm. destruct (sl_last cP); sl_eqb.
+      * intros y. sl_norm. destruct (hd_error cS); sl_eqb.
+      * sl_norm. destruct (sl_last cP); sl_eqb.
+      * apply Hhi; lia.
+  - intros k Hk. apply (sl_lvl_ok_ext s).
+    + intros y. sl_norm. destruct (sl_last cP); sl_eqb.
+    + intros y. sl_norm. destruct (hd_error cS); sl_eqb.
+    + sl_norm. destruct (sl_last cP); sl_eqb.
+    + apply Hlo; lia.
+  - rewrite TL2, TL1, Htl. cbn [Nat.eqb].
+    destruct (Nat.eqb_spec i 0) as [->|Hne]; auto.
+    assert (cS = L2) as ES.
+    { unfold cS. apply sl_chain_0. intros y Hy. apply LV, in_or_app; right; right; auto. }
+    assert (cP = L1) as EP.
+    { unfold cP. apply sl_chain_0. intros y Hy. apply LV, in_or_app; auto. }
+    rewrite ES, EP. destruct L2 as [|m L2'].
+    + cbn [hd_error]. rewrite app_nil_r. reflexivity.
+    + cbn [hd_error]. rewrite (sl_last_app_cons L1 L2' m), (sl_last_app_cons L1 (m :: L2') x). reflexivity.
+Qed.
+
+Lemma sl_pop_levels_ok : forall i s,
+  sl_pop_stage s i -> i <= lev x ->
+  exists s', sl_pop_levels s x i = Ok s' /\ sl_pop_stage s' 0.
+Proof.
+  induction i as [|i IH]; intros s ST Hi.
+  - exists s. split; auto.
+  - cbn [sl_pop_levels].
+    destruct (sl_pop_level_ok s i ST Hi) as (s' & E & ST').
+    rewrite E. cbn [bind]. apply IH; auto. lia.
+Qed.
+
+End POP.
+
+Lemma sl_node_pop_ok s x L1 L2 :
+  sl_rep s (L1 ++ x :: L2) ->
+  exists s', sl_node_pop s x = Ok s' /\ sl_rep s' (L1 ++ L2) /\ sl_same s s'.
+Proof.
+  intros (W & ND & LV & LK & TL).
+  assert (LVx : 0 < sl_LEV s x) by (apply LV, in_or_app; right; left; auto).
+  unfold sl_node_pop, sl_load.
+  pose proof (sl_wf_LEV s x W) as Hxl.
+  assert (EL : exists nd, sl_node_at s x = Some nd /\ sl_LEV s x = sn_levels nd).
+  { unfold sl_LEV in *. destruct (sl_node_at s x) as [nd|]; [eauto|lia]. }
+  destruct EL as (nd & EX & ELX). rewrite EX. cbn [bind]. rewrite <- ELX.
+  assert (ST : sl_pop_stage s x L1 L2 s (sl_LEV s x)).
+  { split; [exact W|]. split; [apply sl_same_refl|]. split; [|split].
+    - intros k H1 H2. specialize (LK k H2). rewrite sl_chain_app, sl_chain_cons in LK.
+      destruct (Nat.ltb_spec k (sl_LEV s x)); [lia|]. rewrite sl_chain_app. exact LK.
+    - intros k Hk. apply LK. lia.
+    - destruct (Nat.eqb_spec (sl_LEV s x) 0); [lia|]. exact TL. }
+  destruct (sl_pop_levels_ok s x L1 L2 W ND LV (sl_LEV s x) s ST) as (s1 & E & ST1); auto.
+  rewrite E. cbn [bind].
+  destruct ST1 as (W1 & SM1 & Hhi & _ & TL1).
+  pose proof SM1 as (SMD & SML & SMl & _).
+  assert (EX1 : exists nd1, sl_node_at s1 x = Some nd1).
+  { apply sl_LEV_live. rewrite SML. exact LVx. }
+  destruct EX1 as (nd1 & EX1). rewrite EX1. cbn [bind].
+  eexists. split; [reflexivity|].
+  match goal with |- sl_rep (sl_map_node s1 x ?f) _ /\ _ => pose proof (sl_map_node_frame s1 x f W1) as F end.
+  destruct F as [F1 F2].
+  { intros nd0 H0. cbn. rewrite !repeat_length.
+    destruct W1 as [W1 _]. apply W1 in H0. unfold sl_node_wf in H0. repeat split; lia. }
+  split; [|eapply sl_same_trans; eauto].
+  set (s2 := sl_map_node s1 x _) in *.
+  pose proof F2 as (_ & SML2 & SMl2 & _).
+  assert (NIx : ~ In x (L1 ++ L2)) by (apply NoDup_remove_2 in ND; exact ND).
+  split; [exact F1|]. split; [apply NoDup_remove_1 in ND; exact ND|]. split; [|split].
+  - intros n Hn. rewrite SML2, SML. apply LV. apply in_app_or in Hn. apply in_or_app.
+    destruct Hn; [left|right; right]; auto.
+  - intros k Hk. rewrite SMl2, SMl in Hk.
+    rewrite (sl_chain_ext (sl_LEV s)) by (intros y; rewrite SML2, SML; reflexivity).
+    apply (sl_lvl_ok_ext_in s1); [| |reflexivity|apply Hhi; lia].
+    + intros y Hy. apply sl_chain_in in Hy. destruct Hy as [Hy _].
+      unfold sl_NX, s2. rewrite sl_node_at_map.
+      destruct (Nat.eqb_spec y x) as [->|_]; [tauto|reflexivity].
+    + intros y Hy. apply sl_chain_in in Hy. destruct Hy as [Hy _].
+      unfold sl_PV, s2. rewrite sl_node_at_map.
+      destruct (Nat.eqb_spec y x) as [->|_]; [tauto|reflexivity].
+  - exact TL1.
+Qed.
+
 
 End SLP.
